@@ -36,6 +36,15 @@ def runWith {σ K V : Type} (step : σ → Op K V → Outcome (σ × Res K V)) :
     | .panic => [.panic]
     | .diverge => [.diverge]
 
+/-- the state reached after a history (`panic`/`diverge` if some call did not return) -/
+def execWith {σ K V : Type} (step : σ → Op K V → Outcome (σ × Res K V)) : σ → List (Op K V) → Outcome σ
+  | s, [] => .ok s
+  | s, op :: ops =>
+    match step s op with
+    | .ok (s', _) => execWith step s' ops
+    | .panic => .panic
+    | .diverge => .diverge
+
 /-! ## indexedBinary -/
 
 structure IBinary (K V : Type) where
@@ -213,7 +222,7 @@ def delete (cmp : K → K → Int) (h : IBinary K V) : Outcome (IBinary K V × O
           match h2.demote cmp (h2.n + 1) 1 with
           | .ok h3 =>
             match h3.clearIndex i with
-            | .ok h4 => .ok (h4, some ((i : Int), k, v))
+            | .ok h4 => .ok (h4, some (Int.ofNat i, k, v))
             | .panic => .panic
             | .diverge => .diverge
           | .panic => .panic
@@ -268,7 +277,7 @@ def peek (h : IBinary K V) : Outcome (Option (Int × K × V)) :=
     | none => .panic
     | some i =>
       match h.kvs[i]? with
-      | some (some (k, v)) => .ok (some ((i : Int), k, v))
+      | some (some (k, v)) => .ok (some (Int.ofNat i, k, v))
       | _ => .panic
 
 def peekIndex (h : IBinary K V) (i : Int) : Outcome (Option (K × V)) :=
